@@ -1,5 +1,6 @@
 import Driver.Util
 import Driver.C01
+import Driver.C07
 open Driver
 
 /-- dispatch one request line; returns the output lines -/
@@ -9,6 +10,7 @@ def dispatch (line : String) : IO (List String) := do
   | [] => return ["error empty"]
   | "spec" :: args => cmdSpec args
   | "decode" :: args => cmdDecode args
+  | "c07" :: args => cmdC07 args
   | _ => return ["error unknown-command"]
 
 partial def loop (hin : IO.FS.Stream) (hout : IO.FS.Stream) : IO Unit := do
